@@ -112,6 +112,15 @@ func (e *SpecEnv) inOld() *SpecEnv {
 	return &n
 }
 
+// lookupElemType: inside a composite type "int" is Go's int (a stored value), not the mathematical integer that a
+// bare "int" parameter of a predicate denotes.
+func (e *SpecEnv) lookupElemType(name string) types.Type {
+	if strings.TrimSpace(name) == "int" {
+		return types.Typ[types.Int]
+	}
+	return e.lookupType(name)
+}
+
 func (e *SpecEnv) lookupType(name string) types.Type {
 	name = strings.TrimSpace(name)
 	for strings.HasPrefix(name, "(") && strings.HasSuffix(name, ")") {
@@ -125,7 +134,7 @@ func (e *SpecEnv) lookupType(name string) types.Type {
 		return types.NewPointer(t)
 	}
 	if strings.HasPrefix(name, "[]") {
-		t := e.lookupType(name[2:])
+		t := e.lookupElemType(name[2:])
 		if t == nil {
 			return nil
 		}
@@ -136,7 +145,7 @@ func (e *SpecEnv) lookupType(name string) types.Type {
 		if j := strings.Index(name, "]"); j > 0 {
 			var n int64
 			if _, err := fmt.Sscanf(name[1:j], "%d", &n); err == nil {
-				if t := e.lookupType(name[j+1:]); t != nil {
+				if t := e.lookupElemType(name[j+1:]); t != nil {
 					return types.NewArray(t, n)
 				}
 			}
@@ -145,8 +154,8 @@ func (e *SpecEnv) lookupType(name string) types.Type {
 	}
 	if strings.HasPrefix(name, "map[") {
 		cl := matchBracket(name, 3)
-		k := e.lookupType(name[4:cl])
-		v := e.lookupType(name[cl+1:])
+		k := e.lookupElemType(name[4:cl])
+		v := e.lookupElemType(name[cl+1:])
 		if k == nil || v == nil {
 			return nil
 		}
@@ -506,8 +515,7 @@ func (e *SpecEnv) binary(x *ast.BinaryExpr) *Val {
 			if b, ok := conc.T.(*types.Basic); ok && b.Info()&types.IsUntyped != 0 {
 				return cs
 			}
-			fn := e.fr.u.S.boxFun(mangle(shortTypeName(conc.T)), e.fr.u.S.sortOf(conc.T))
-			return app(fn, cs)
+			return e.fr.u.boxed(conc.T, cs, true)
 		}
 		ls, rs = box(r, l, ls, x.X), box(l, r, rs, x.Y)
 		// nil comparisons on slices compare the backing array
